@@ -117,18 +117,72 @@ def plan_rules(ctx, F, rid):
                 return nb, {o.key for o in coll if o.kind == 'param'}, {str(o.key) for o in coll if o.kind == 'call'}
         return None, set(), set()
 
+    other_predicates = set()
+
+    def from_excludes(op, depth=0):
+        # the operand is the `excludes` parameter, or was built from it (a compiled pattern set: a collection filled with values
+        # computed from the patterns)
+        work, seen_, steps = [op], set(), 0
+        while work and steps < 200:
+            steps += 1
+            cur = work.pop()
+            if cur['k'] == 'const':
+                continue
+            for o in fl.origins(cur, mut_calls=True):
+                k_ = (o.kind, str(o.key), o.bb)
+                if k_ in seen_:
+                    continue
+                seen_.add(k_)
+                if o.kind == 'param' and o.key == exc_i:
+                    return True
+                if o.kind in ('call', 'mutcall') and o.bb is not None:
+                    work += [a for a in b.blocks[o.bb]['term'].get('args', []) if a['k'] != 'const']
+        return False
+
+    def exclusion_tests(sig):
+        """calls that ask "is this path excluded?": is_excluded(path, excludes), or another crate predicate (-> bool) that is
+        given the path and something built from `excludes`"""
+        out = []
+        for cb, ct in fl.calls(lambda c: F.body(c) is not None):
+            c = callee(ct)
+            if b.local_ty(ct['dst']['l']) != 'bool':
+                continue
+            has_path = any(a['k'] != 'const' and vsig(a) == sig for a in ct['args'])
+            has_exc = any(a['k'] != 'const' and from_excludes(a) for a in ct['args'])
+            if has_path and has_exc:
+                out.append((cb, ct, fl.outcomes(cb)))
+                if c != 'plan::is_excluded':
+                    other_predicates.add(c)
+        # .. the same predicate spliced in place (inline.py): the site is remembered on the goto that replaced the call
+        for bi_ in cfg.reachable():
+            t_ = b.blocks[bi_]['term']
+            if t_.get('inlined') and isinstance(t_.get('inlined_dst'), dict) and not t_['inlined_dst'].get('proj') and b.local_ty(t_['inlined_dst']['l']) == 'bool':
+                args_ = t_.get('inlined_args', [])
+                if any(a['k'] != 'const' and vsig(a) == sig for a in args_) and any(a['k'] != 'const' and from_excludes(a) for a in args_):
+                    out.append((bi_, t_, fl.outcomes(None, t_['inlined_dst']['l'])))
+                    if t_['inlined'] != 'plan::is_excluded':
+                        other_predicates.add(t_['inlined'])
+        # a spliced predicate may itself test pattern after pattern through spliced helpers: those inner tests (one pattern against
+        # the path) lie inside the outer one and are not "the" exclusion test
+        inner = set()
+        for cb, ct, oc_ in out:
+            if ct.get('inlined') and isinstance(ct.get('target'), int):
+                stop = {e[1] for es in oc_.values() for e in es} | {e[0] for es in oc_.values() for e in es if e[2] is not None}
+                region = cfg.reach(ct['target'], cut_blocks=list(stop))
+                inner |= {cb2 for cb2, _, _ in out if cb2 != cb and cb2 in region}
+        out = [x for x in out if x[0] not in inner]
+        return out
+
     def excl_false(sig):
         e = set()
-        for cb, ct in fl.calls_to('plan::is_excluded'):
-            if vsig(ct['args'][0]) == sig and is_param(fl.origins(ct['args'][1]), exc_i):
-                e |= fl.outcomes(cb).get('false', set())
+        for cb, ct, oc_ in exclusion_tests(sig):
+            e |= oc_.get('false', set())
         return e
 
     def excl_true(sig):
         e = set()
-        for cb, ct in fl.calls_to('plan::is_excluded'):
-            if vsig(ct['args'][0]) == sig:
-                e |= fl.outcomes(cb).get('true', set())
+        for cb, ct, oc_ in exclusion_tests(sig):
+            e |= oc_.get('true', set())
         return e
 
     def absent_edges(sig, map_i):
@@ -247,6 +301,10 @@ def plan_rules(ctx, F, rid):
                 sorted_fields.add(o.path[-1])
     rets = [bb for bb, kind, data in ret_defs(b)]
     dom = all(any(cfg.dominates(sb, rb) for sb, _ in sorts) for rb in rets) if sorts else False
+    if other_predicates:
+        # the plan asks another predicate than is_excluded (a compiled pattern set): membership is judged with it as "the
+        # exclusion test"; that it implements the documented exclusion semantics is what the matcher rules decide - for is_excluded
+        ctx.undecided(rid, 'build_plan tests exclusion through %s, not through is_excluded: that this predicate is the documented one is not decided' % sorted(other_predicates)[0].split('::{')[0])
     ctx.check({'transfer', 'delete'} <= sorted_fields and dom, rid, 'build_plan:sorted', 'transfer and delete sorted before return',
               'build_plan returns unsorted vectors (sorted: %s)' % sorted(sorted_fields), loc(b, b.lo))
     ctx.ok(rid, 'build_plan:anchors', 'src=%s dst=%s excludes=%s with_delete=%s' % (src_i, dst_i, exc_i, del_i))
@@ -537,6 +595,15 @@ def excluded_rules(ctx, F, rid):
     trues = [bi for bi in cfg.reachable() for st in b.blocks[bi]['stmts']
              if st['dst']['l'] == 0 and st['rv']['k'] == 'use' and st['rv']['ops'][0]['k'] == 'const' and st['rv']['ops'][0].get('v') == 1]
     kinds = set()
+    for gb, gt in globs:
+        for o in fl.origins(gt['args'][0]):
+            if o.kind == 'call' and o.key == 'std::iter::Iterator::next':
+                coll = [x for x in iterated_collection(fl, o.bb) if x.kind != 'comb']
+                if coll and not any(x.kind == 'param' for x in coll) and all(x.kind in ('call', 'agg') for x in coll):
+                    # the patterns were prepared ahead of the matching loop (trimmed / classified into a local collection): which
+                    # matcher a pattern gets is then in the data, not in the control flow these rules read
+                    ctx.undecided(rid, 'is_excluded matches patterns taken from a collection it prepared beforehand: the whole-path / per-component dispatch is not decided')
+                    return
     for gb, gt in globs:
         po = fl.origins(gt['args'][0])
         to = fl.origins(gt['args'][1])
